@@ -250,6 +250,24 @@ fn extract_middle_bases(vec_variants: &[VariantInfo], k_graph: usize) -> (Vec<St
 pub mod verif_hooks {
     use crate::skalo::utils::{DnaSequence, VariantInfo};
 
+    /// `dereplicate_indels` on (entry k-mer, exit k-mer, path sequences): the kept
+    /// (entry, exit) pairs, sorted, and the k-mers recorded as indel extremities, sorted
+    pub fn dereplicate_indels(groups: &[(u128, u128, Vec<String>)], k_graph: usize) -> (Vec<(u128, u128)>, Vec<u128>) {
+        let mut map: super::VariantGroups<u128> = hashbrown::HashMap::new();
+        for (a, b, seqs) in groups {
+            map.insert(
+                (*a, *b),
+                seqs.iter().map(|s| VariantInfo::new(DnaSequence::encode(s), Vec::new())).collect(),
+            );
+        }
+        let (kept, entries) = super::dereplicate_indels(map, k_graph);
+        let mut keys: Vec<(u128, u128)> = kept.keys().copied().collect();
+        keys.sort();
+        let mut e: Vec<u128> = entries.into_iter().collect();
+        e.sort();
+        (keys, e)
+    }
+
     /// `extract_middle_bases` on plain sequences
     pub fn extract_middle_bases(seqs: &[String], k_graph: usize) -> (Vec<String>, String) {
         let v: Vec<VariantInfo> = seqs
